@@ -481,6 +481,9 @@ def gen_AhabConsts():
         ("certificateTag", src.const("AhabCertificate", "TAG")), ("certificateVersion", src.const("AhabCertificate", "VERSION")),
         ("srkFlagsCaMask", src.const("SRKRecordBase", "FLAGS_CA_MASK")),
         ("iaeHashLen", src.const("ImageArrayEntry", "HASH_LEN")), ("iaeIvLen", src.const("ImageArrayEntry", "IV_LEN")),
+        ("srkDataTag", src.const("SRKData", "TAG")), ("srkDataVersion", src.const("SRKData", "VERSION")),
+        ("srkTableV2Version", src.const("SRKTableV2", "VERSION")),
+        ("srkRecordV2ParamsLen", src.const("SRKRecordV2", "CRYPTO_PARAMS_LEN")),
     ]
     for key in ("FLAGS_SRK_SET_OFFSET", "FLAGS_SRK_SET_SIZE", "FLAGS_USED_SRK_ID_OFFSET", "FLAGS_USED_SRK_ID_SIZE",
                 "FLAGS_SRK_REVOKE_MASK_OFFSET", "FLAGS_SRK_REVOKE_MASK_SIZE", "FLAGS_GDET_ENABLE_OFFSET", "FLAGS_GDET_ENABLE_SIZE"):
